@@ -871,3 +871,210 @@ Example ex_concat : getEigenValues Z ex_S [([10], []); ([20; 21], []); ([30], []
 Proof. reflexivity. Qed.
 Example ex_pruning_hyp : nre_ltb Z Zops (nabs Z Zops 8) (nmul Z Zops (nabs Z Zops 8) 1) = false.
 Proof. reflexivity. Qed.
+
+(** * Part D: the two loops of FieldOperatorPart::compute (C10)
+
+    For a partition that the operator respects (the image of every state of the right block lies in the left block)
+    the model of the two loops never leaves its arrays, and column k of LeftMat / row k of RightMat are given by the
+    formulas that theories/Rotate.v takes as the definition of LeftMat and RightMat:
+        LeftMat(n,k)  = conj(U_to(l_k, n)),   RightMat(k,m) = sign_k * U_from(k,m)      if O|K_k> = sign_k |L_(l_k)>
+        LeftMat(.,k)  = 0,                    RightMat(k,.) = 0                         if O|K_k> = 0. *)
+Local Close Scope Z_scope.
+
+Section Rotation.
+Variable fb : bool.
+Variable K : Type.
+Variable NO : numops K.
+Variable eps : K.
+Notation "0" := (n0 K NO).
+Notation "1" := (n1 K NO).
+Notation kadd := (nadd K NO).
+Notation kmul := (nmul K NO).
+Notation kopp := (nopp K NO).
+Notation conj := (nconj K NO).
+Notation ltb := (nre_ltb K NO).
+Notation kabs := (nabs K NO).
+
+(** the matrix elements +1 and -1 of a field operator pass both magnitude tests (|x| < eps is false, |x| > eps is true) *)
+Hypothesis one_not_small : ltb (kabs 1) eps = false.
+Hypothesis mone_not_small : ltb (kabs (kopp 1)) eps = false.
+Hypothesis one_large : ltb eps (kabs 1) = true.
+Hypothesis mone_large : ltb eps (kabs (kopp 1)) = true.
+
+Definition fop_mono (o : fop) : monomial :=
+  match o with FCdag i => [cdag i] | FC i => [cann i] | FQuad i j => [cdag i; cann j] end.
+
+Lemma fop_poly_mono : forall o, fop_poly K NO o = [(fop_mono o, 1)].
+Proof. intros [i|i|i j]; reflexivity. Qed.
+
+(** O |Kst> = sign |L>  as (label of L, sign), or None *)
+Definition tgt_of (M : nat) (o : fop) (Kst : nat) : option (nat * K) :=
+  match act_mono (fop_mono o) (state_of_nat M Kst) with
+  | Done (Some (sg, s')) => Some (nat_of_state s', if sg then kopp 1 else 1)
+  | _ => None
+  end.
+
+Lemma act_map_fop : forall M o Kst, mono_in_range M (fop_mono o) ->
+  act_map K NO eps M (fop_poly K NO o) Kst = Done (match tgt_of M o Kst with Some e => [e] | None => [] end).
+Proof.
+  intros M o Kst Hr. unfold act_map, act_poly, tgt_of. rewrite fop_poly_mono. cbn [fold_left bind fst snd].
+  destruct (act_mono_in_range M (fop_mono o) (state_of_nat M Kst) Hr (state_of_nat_length M Kst)) as [res Hres].
+  rewrite Hres. destruct res as [[sg s']|]; cbn [bind lc_add map fst snd filter]; [|reflexivity].
+  unfold is_zero. destruct sg; cbn [snd]; [rewrite mone_not_small | rewrite one_not_small]; reflexivity.
+Qed.
+
+Lemma tgt_of_sign : forall M o Kst L sg, tgt_of M o Kst = Some (L, sg) -> ltb eps (kabs sg) = true.
+Proof.
+  intros M o Kst L sg H. unfold tgt_of in H.
+  destruct (act_mono (fop_mono o) (state_of_nat M Kst)) as [[[s s']|]| | | |]; try discriminate.
+  inversion H; subst. destruct s; assumption.
+Qed.
+
+Lemma mget_chk_done : forall (m : mat K) i j, i < length m -> j < length (nth i m []) ->
+  mget_chk K m i j = Done (mget K NO m i j).
+Proof.
+  intros m i j Hi Hj. unfold mget_chk, mget.
+  rewrite (nth_error_nth' m [] Hi). rewrite (nth_error_nth' (nth i m []) 0 Hj). reflexivity.
+Qed.
+
+Definition square (n : nat) (m : mat K) : Prop := length m = n /\ forall i, i < n -> length (nth i m []) = n.
+
+Definition left_column (Hto : mat K) (nt l : nat) : list K := map (fun n => conj (mget K NO Hto l n)) (seq 0 nt).
+Definition right_row (Hfrom : mat K) (nf k : nat) (sg : K) : list K := map (fun m => kmul sg (mget K NO Hfrom k m)) (seq 0 nf).
+
+Theorem fop_fill_char : forall (S : classification) (o : fop) (from to : nat) (fromStates toStates : list nat) (Hfrom Hto : mat K),
+  wf_class S -> mono_in_range (sc_M S) (fop_mono o) ->
+  nth_error (sc_states S) from = Some fromStates -> nth_error (sc_states S) to = Some toStates ->
+  square (length fromStates) Hfrom -> square (length toStates) Hto ->
+  (* the operator respects the pair of blocks *)
+  (forall Kst L sg, In Kst fromStates -> tgt_of (sc_M S) o Kst = Some (L, sg) -> In L toStates) ->
+  exists Lc Rr,
+    fop_fill fb K NO eps S o Hfrom Hto (length toStates) (length fromStates) fromStates = Done (Lc, Rr) /\
+    length Lc = length fromStates /\ length Rr = length fromStates /\
+    forall k Kst, nth_error fromStates k = Some Kst ->
+      match tgt_of (sc_M S) o Kst with
+      | Some (L, sg) => exists l, nth_error toStates l = Some L /\
+                          nth k Lc [] = left_column Hto (length toStates) l /\
+                          nth k Rr [] = right_row Hfrom (length fromStates) k sg
+      | None => nth k Lc [] = repeat 0 (length toStates) /\ nth k Rr [] = repeat 0 (length fromStates)
+      end.
+Proof.
+  intros S o from to fromStates toStates Hfrom Hto Hwf Hr Hf Ht [HfromL HfromR] [HtoL HtoR] Hresp.
+  set (nt := length toStates) in *. set (nf := length fromStates) in *.
+  (* generalised over the part of the right block already processed *)
+  assert (G : forall (sub : list nat) (LR0 : list (list K) * list (list K)),
+    (forall x, In x sub -> In x fromStates) -> NoDup sub ->
+    length (fst LR0) = nf -> length (snd LR0) = nf ->
+    exists LR,
+      fold_left (fun acc Kst => bind acc (fun LR =>
+        bind (act_map K NO eps (sc_M S) (fop_poly K NO o) Kst) (fun result1 =>
+          match result1 with
+          | [] => Done LR
+          | (Lst, sign) :: _ =>
+            if ltb eps (kabs sign) then
+              bind (getInnerState fb S Lst) (fun l =>
+              bind (getInnerState fb S Kst) (fun k =>
+              bind (outcome_map (fun n => bind (mget_chk K Hto l n) (fun x => Done (conj x))) (seq 0 nt)) (fun lcol =>
+              bind (outcome_map (fun m => bind (mget_chk K Hfrom k m) (fun x => Done (kmul sign x))) (seq 0 nf)) (fun rrow =>
+                match set_nth (fst LR) k lcol, set_nth (snd LR) k rrow with
+                | Some L', Some R' => Done (L', R')
+                | _, _ => OOB
+                end))))
+            else Done LR
+          end))) sub (Done LR0) = Done LR /\
+      length (fst LR) = nf /\ length (snd LR) = nf /\
+      forall k Kst, nth_error fromStates k = Some Kst ->
+        match (if in_dec Nat.eq_dec Kst sub then tgt_of (sc_M S) o Kst else None) with
+        | Some (L, sg) => exists l, nth_error toStates l = Some L /\
+                            nth k (fst LR) [] = left_column Hto nt l /\ nth k (snd LR) [] = right_row Hfrom nf k sg
+        | None => nth k (fst LR) [] = nth k (fst LR0) [] /\ nth k (snd LR) [] = nth k (snd LR0) []
+        end).
+  { induction sub as [|x sub IH]; intros LR0 Hsub Hnd HL0 HR0.
+    - exists LR0. cbn [fold_left]. repeat split; auto.
+    - cbn [fold_left bind]. rewrite (act_map_fop (sc_M S) o x Hr).
+      assert (Hx : In x fromStates) by (apply Hsub; left; reflexivity).
+      destruct (In_nth_error _ _ Hx) as [kx Hkx].
+      assert (Hkxlt : kx < nf) by (apply nth_error_Some; congruence).
+      inversion Hnd as [|? ? Hnotin Hnd']; subst.
+      assert (Hsub' : forall y, In y sub -> In y fromStates) by (intros y Hy; apply Hsub; right; exact Hy).
+      destruct (tgt_of (sc_M S) o x) as [[L sg]|] eqn:Etgt.
+      + cbn [bind]. rewrite (tgt_of_sign _ _ _ _ _ Etgt).
+        assert (HL : In L toStates) by (eapply Hresp; eauto).
+        destruct (In_nth_error _ _ HL) as [l Hl].
+        assert (Hllt : l < nt) by (apply nth_error_Some; congruence).
+        rewrite (getInnerState_wf fb S to toStates l L Hwf Ht Hl). cbn [bind].
+        rewrite (getInnerState_wf fb S from fromStates kx x Hwf Hf Hkx). cbn [bind].
+        rewrite (outcome_map_all_done _ (fun n => conj (mget K NO Hto l n))).
+        2: { intros n Hn. apply in_seq in Hn. rewrite mget_chk_done; [reflexivity | lia | rewrite HtoR; lia]. }
+        cbn [bind].
+        rewrite (outcome_map_all_done _ (fun m => kmul sg (mget K NO Hfrom kx m))).
+        2: { intros m Hm. apply in_seq in Hm. rewrite mget_chk_done; [reflexivity | lia | rewrite HfromR; lia]. }
+        cbn [bind].
+        destruct (set_nth_some (fst LR0) kx (map (fun n => conj (mget K NO Hto l n)) (seq 0 nt))) as [L1 HL1]; [lia|].
+        destruct (set_nth_some (snd LR0) kx (map (fun m => kmul sg (mget K NO Hfrom kx m)) (seq 0 nf))) as [R1 HR1]; [lia|].
+        rewrite HL1, HR1.
+        destruct (IH (L1, R1) Hsub' Hnd') as [LR [Hfold [HLl [HRl Hchar]]]].
+        { cbn [fst]. rewrite (set_nth_length _ _ _ _ HL1). exact HL0. }
+        { cbn [snd]. rewrite (set_nth_length _ _ _ _ HR1). exact HR0. }
+        exists LR. split; [exact Hfold|]. split; [exact HLl|]. split; [exact HRl|].
+        intros k Kst Hk. specialize (Hchar k Kst Hk).
+        destruct (in_dec Nat.eq_dec Kst (x :: sub)) as [Hin|Hnin].
+        * destruct (in_dec Nat.eq_dec Kst sub) as [Hin'|Hnin'].
+          { destruct (tgt_of (sc_M S) o Kst) as [[L' sg']|]; [exact Hchar|].
+            destruct Hchar as [HcL HcR]. cbn [fst snd] in HcL, HcR. rewrite HcL, HcR.
+            assert (Hne : k <> kx).
+            { intro; subst k. apply Hnotin. replace x with Kst by congruence. exact Hin'. }
+            apply Nat.eqb_neq in Hne.
+            rewrite (set_nth_nth _ _ _ _ k [] HL1), (set_nth_nth _ _ _ _ k [] HR1), Hne. split; reflexivity. }
+          destruct Hin as [Hin|Hin]; [|contradiction]. subst Kst.
+          assert (Hkk : k = kx).
+          { apply (proj1 (NoDup_nth_error fromStates) (proj1 Hwf from fromStates Hf)); [apply nth_error_Some; congruence | congruence]. }
+          subst k. rewrite Etgt. exists l. split; [exact Hl|].
+          destruct Hchar as [HcL HcR]. cbn [fst snd] in HcL, HcR.
+          rewrite HcL, HcR. rewrite (set_nth_nth _ _ _ _ kx [] HL1), (set_nth_nth _ _ _ _ kx [] HR1), Nat.eqb_refl.
+          split; reflexivity.
+        * destruct (in_dec Nat.eq_dec Kst sub) as [Hin'|Hnin']; [exfalso; apply Hnin; right; exact Hin'|].
+          destruct Hchar as [HcL HcR]. cbn [fst snd] in HcL, HcR. rewrite HcL, HcR.
+          assert (Hne : k <> kx).
+          { intro; subst k. apply Hnin. left. congruence. }
+          apply Nat.eqb_neq in Hne.
+          rewrite (set_nth_nth _ _ _ _ k [] HL1), (set_nth_nth _ _ _ _ k [] HR1), Hne. split; reflexivity.
+      + cbn [bind].
+        destruct (IH LR0 Hsub' Hnd' HL0 HR0) as [LR [Hfold [HLl [HRl Hchar]]]].
+        exists LR. split; [exact Hfold|]. split; [exact HLl|]. split; [exact HRl|].
+        intros k Kst Hk. specialize (Hchar k Kst Hk).
+        destruct (in_dec Nat.eq_dec Kst (x :: sub)) as [Hin|Hnin].
+        * destruct (in_dec Nat.eq_dec Kst sub) as [Hin'|Hnin']; [exact Hchar|].
+          destruct Hin as [Hin|Hin]; [|contradiction]. subst Kst. rewrite Etgt. exact Hchar.
+        * destruct (in_dec Nat.eq_dec Kst sub) as [Hin'|Hnin']; [exfalso; apply Hnin; right; exact Hin'|]. exact Hchar. }
+  destruct (G fromStates (repeat (repeat 0 nt) nf, repeat (repeat 0 nf) nf)) as [LR [Hfold [HLl [HRl Hchar]]]].
+  - auto.
+  - exact (proj1 Hwf from fromStates Hf).
+  - apply repeat_length.
+  - apply repeat_length.
+  - exists (fst LR), (snd LR). unfold fop_fill. fold nt nf. rewrite Hfold. destruct LR as [Lc Rr]. cbn [fst snd] in *.
+    split; [reflexivity|]. split; [exact HLl|]. split; [exact HRl|].
+    intros k Kst Hk. specialize (Hchar k Kst Hk).
+    assert (Hin : In Kst fromStates) by (eapply nth_error_In; exact Hk).
+    destruct (in_dec Nat.eq_dec Kst fromStates) as [_|Hn]; [|contradiction].
+    destruct (tgt_of (sc_M S) o Kst) as [[L sg]|]; [exact Hchar|].
+    assert (Hklt : k < nf) by (apply nth_error_Some; congruence).
+    destruct Hchar as [HcL HcR]. rewrite HcL, HcR. cbn [fst snd].
+    split.
+    + rewrite (nth_indep _ [] (repeat 0 nt)) by (rewrite repeat_length; exact Hklt). apply nth_repeat.
+    + rewrite (nth_indep _ [] (repeat 0 nf)) by (rewrite repeat_length; exact Hklt). apply nth_repeat.
+Qed.
+
+End Rotation.
+
+(** the magnitude hypotheses hold at the integers with eps = 0 < 1 (any 0 <= eps < 1 in an ordered field) *)
+Example Z_one_tests :
+  nre_ltb Z Zops (nabs Z Zops (n1 Z Zops)) 0%Z = false /\ nre_ltb Z Zops (nabs Z Zops (nopp Z Zops (n1 Z Zops))) 0%Z = false /\
+  nre_ltb Z Zops 0%Z (nabs Z Zops (n1 Z Zops)) = true /\ nre_ltb Z Zops 0%Z (nabs Z Zops (nopp Z Zops (n1 Z Zops))) = true.
+Proof. repeat split. Qed.
+
+(** c^+_1 from the N = 1 block [1;2] to the N = 2 block [3] of two modes, eigenvectors = identity:
+    c^+_1 |1> = -|3> (mode 0 occupied), c^+_1 |2> = 0 *)
+Example ex_fop_fill :
+  fop_fill false Z Zops 0%Z ex_S (FCdag 1) [[1; 0]; [0; 1]]%Z [[1]]%Z 1 2 [1; 2] = Done ([[1]; [0]]%Z, [[-1; 0]; [0; 0]]%Z).
+Proof. vm_compute. reflexivity. Qed.
